@@ -20,7 +20,8 @@ var propPkgs = map[string][]string{
 	"C03": {"banyand/measure"},
 	"C09": {"pkg/query/logical/measure", "pkg/query/executor", "pkg/query/logical/trace", "pkg/iter"},
 	"C08": {"pkg/filter", "pkg/encoding", "pkg/encoding/vararray"},
-	"C05": {"banyand/internal/snapshot"},
+	"C05": {"banyand/internal/snapshot", "|", "banyand/measure"},
+	"C19": {"banyand/internal/storage", "pkg/timestamp", "|", "banyand/measure"},
 	"C16": {"pkg/node", "pkg/partition", "pkg/convert"},
 	"C10": {"pkg/query/aggregation"},
 	"C13": {"pkg/pipeline/sdk"},
@@ -33,7 +34,7 @@ var propPkgs = map[string][]string{
 type Finding struct {
 	Property   string `json:"property"`
 	Obligation string `json:"obligation"`
-	Status     string `json:"status"` // "open" | "fixed"
+	Status     string `json:"status"`            // "open" | "fixed"
 	Witness    string `json:"witness,omitempty"` // spec predicate over the function's inputs that characterises the listed failure
 	What       string `json:"what"`
 	Commit     string `json:"commit,omitempty"`
@@ -143,13 +144,28 @@ func runCheck(root, prop, tier string, overlay map[string][]byte) *CheckResult {
 		res.Lines = append(res.Lines, fmt.Sprintf("VIOLATION property=%s replay=%s no-failing-input-found", prop, res.Violations[0].Replay))
 		return res
 	}
-	prog, err := LoadProgram(root, rels, overlay)
-	if err != nil {
-		res.LoadErr = err.Error()
-		rp := writeReplayFile(prop, "load", map[string]interface{}{"error": res.LoadErr})
-		res.Violations = append(res.Violations, violation{prop + "/load", rp, "no-failing-input-found"})
-		res.Lines = append(res.Lines, fmt.Sprintf("VIOLATION property=%s replay=%s no-failing-input-found", prop, rp))
-		return res
+	// "|" separates groups of packages that are loaded as independent programs (their contract files state
+	// assumptions about the same external functions differently, and nothing in one group calls the other)
+	var groups [][]string
+	groups = append(groups, nil)
+	for _, r := range rels {
+		if r == "|" {
+			groups = append(groups, nil)
+			continue
+		}
+		groups[len(groups)-1] = append(groups[len(groups)-1], r)
+	}
+	var progs []*Program
+	for _, g := range groups {
+		prog, err := LoadProgram(root, g, overlay)
+		if err != nil {
+			res.LoadErr = err.Error()
+			rp := writeReplayFile(prop, "load", map[string]interface{}{"error": res.LoadErr})
+			res.Violations = append(res.Violations, violation{prop + "/load", rp, "no-failing-input-found"})
+			res.Lines = append(res.Lines, fmt.Sprintf("VIOLATION property=%s replay=%s no-failing-input-found", prop, rp))
+			return res
+		}
+		progs = append(progs, prog)
 	}
 	hasProp := func(ps []string) bool {
 		for _, p := range ps {
@@ -160,34 +176,37 @@ func runCheck(root, prop, tier string, overlay map[string][]byte) *CheckResult {
 		return false
 	}
 	type job struct {
-		pk *Pkg
-		fc *FuncContract
-		lm *Lemma
+		prog *Program
+		pk   *Pkg
+		fc   *FuncContract
+		lm   *Lemma
 	}
 	var jobs []job
-	for _, pk := range prog.pkgs {
-		if pk.contracts == nil {
-			continue
-		}
-		for _, key := range pk.contracts.FuncOrder {
-			fc := pk.contracts.Funcs[key]
-			if !hasProp(fc.Props) {
+	for _, prog := range progs {
+		for _, pk := range prog.pkgs {
+			if pk.contracts == nil {
 				continue
 			}
-			if fc.Assumed {
-				res.Assumed = append(res.Assumed, pk.rel+"."+fc.Key+": "+fc.AssumedWhy)
-				continue
+			for _, key := range pk.contracts.FuncOrder {
+				fc := pk.contracts.Funcs[key]
+				if !hasProp(fc.Props) {
+					continue
+				}
+				if fc.Assumed {
+					res.Assumed = append(res.Assumed, pk.rel+"."+fc.Key+": "+fc.AssumedWhy)
+					continue
+				}
+				jobs = append(jobs, job{prog: prog, pk: pk, fc: fc})
 			}
-			jobs = append(jobs, job{pk: pk, fc: fc})
-		}
-		for _, lm := range pk.contracts.Lemmas {
-			if !hasProp(lm.Props) {
-				continue
+			for _, lm := range pk.contracts.Lemmas {
+				if !hasProp(lm.Props) {
+					continue
+				}
+				if lm.Thorough && tier != "thorough" {
+					continue
+				}
+				jobs = append(jobs, job{prog: prog, pk: pk, lm: lm})
 			}
-			if lm.Thorough && tier != "thorough" {
-				continue
-			}
-			jobs = append(jobs, job{pk: pk, lm: lm})
 		}
 	}
 	reps := make([]*FuncReport, len(jobs))
@@ -200,9 +219,9 @@ func runCheck(root, prop, tier string, overlay map[string][]byte) *CheckResult {
 			defer wg.Done()
 			defer func() { <-sem }()
 			if j.fc != nil {
-				reps[i] = VerifyFunc(prog, j.pk, j.fc, tier)
+				reps[i] = VerifyFunc(j.prog, j.pk, j.fc, tier)
 			} else {
-				reps[i] = VerifyLemma(prog, j.pk, j.lm, tier)
+				reps[i] = VerifyLemma(j.prog, j.pk, j.lm, tier)
 			}
 		}(i, j)
 	}
